@@ -25,7 +25,11 @@ fn prog(vars: Vec<Decl>, body: Vec<S>) -> Prog {
 }
 
 fn case(family: &'static str, feature: String, prog: Prog, cycles: usize, reference: bool) -> Case {
-    Case { family, feature, prog, cycles, reference }
+    Case { family, feature, prog, cycles, reference, raw: None }
+}
+
+fn raw(family: &'static str, feature: &str, text: &str, cycles: usize) -> Case {
+    Case { family, feature: feature.to_string(), prog: Prog::default(), cycles, reference: false, raw: Some(text.to_string()) }
 }
 
 fn same_chain(a: Ty, b: Ty) -> bool {
@@ -191,6 +195,17 @@ pub fn f2() -> Vec<Case> {
             ));
         }
     }
+    // LINT minimum cannot be written as a literal: compute it, then negate
+    out.push(case(
+        "F2",
+        "Neg:LINT:computed-min".into(),
+        prog(
+            vec![Decl::init("a", int(Ty::LInt, -9_223_372_036_854_775_807)), Decl::new("r", Ty::LInt)],
+            vec![assign("a", bin(Op::Sub, var("a"), lit(int(Ty::LInt, 1)))), assign("r", E::Neg(Box::new(var("a"))))],
+        ),
+        1,
+        true,
+    ));
     for x in [0.0f32, 1.5, -2.25] {
         out.push(case(
             "F2",
@@ -477,6 +492,18 @@ pub fn f4(thorough: bool) -> Vec<Case> {
             out.push(case("F4w", format!("for:{}:range-start", t.name()), prog(vars, vec![f]), 1, false));
         }
     }
+    // negative step on an unsigned control variable (outcome class only)
+    for &t in &UNSIGNED {
+        let mut vars = counters(1);
+        vars.push(Decl::new("i", t));
+        vars.push(Decl::init("st", int(Ty::Int, -1)));
+        let f = S::For { var: "i".into(), from: lit(int(t, 3)), to: lit(int(t, 1)), by: Some(var("st")), body: vec![inc("k0")] };
+        out.push(case("F4w", format!("for:{}:negative-step-variable", t.name()), prog(vars, vec![f]), 1, false));
+        let mut vars = counters(1);
+        vars.push(Decl::new("i", t));
+        let f = S::For { var: "i".into(), from: lit(int(t, 3)), to: lit(int(t, 1)), by: Some(ulit(int(Ty::DInt, -1))), body: vec![inc("k0")] };
+        out.push(case("F4w", format!("for:{}:negative-step-literal", t.name()), prog(vars, vec![f]), 1, false));
+    }
     // FOR with untyped bounds (the common idiom)
     for &t in &INTS {
         let mut vars = counters(1);
@@ -675,7 +702,7 @@ pub fn f6() -> Vec<Case> {
     let l = |x: i128| lit(int(Ty::Int, x));
     let fb = FbDef {
         name: "Acc".into(),
-        inputs: vec![Decl::new("d", Ty::Int), Decl::init("scale", int(Ty::Int, 1))],
+        inputs: vec![Decl::new("d", Ty::Int), Decl::new("scale", Ty::Int)],
         outputs: vec![Decl::new("total", Ty::Int)],
         vars: vec![Decl::new("calls", Ty::Int)],
         body: vec![assign("calls", bin(Op::Add, var("calls"), l(1))), assign("total", bin(Op::Add, var("total"), bin(Op::Mul, var("d"), var("scale"))))],
@@ -686,9 +713,9 @@ pub fn f6() -> Vec<Case> {
             for style in ["named", "positional", "case-variant"] {
                 let mut body = Vec::new();
                 let arg = |v: i128| match style {
-                    "named" => vec![Arg::In("d".into(), l(v))],
-                    "positional" => vec![Arg::Pos(l(v))],
-                    _ => vec![Arg::In("D".into(), l(v))],
+                    "named" => vec![Arg::In("d".into(), l(v)), Arg::In("scale".into(), l(2))],
+                    "positional" => vec![Arg::Pos(l(v)), Arg::Pos(l(2))],
+                    _ => vec![Arg::In("D".into(), l(v)), Arg::In("SCALE".into(), l(2))],
                 };
                 for _ in 0..calls_a {
                     body.push(S::FbCall("fa".into(), arg(3)));
@@ -716,11 +743,32 @@ pub fn f6() -> Vec<Case> {
         ];
         let mut p = prog(vec![inst("fa"), inst("fb"), Decl::new("ra", Ty::Int), Decl::new("rb", Ty::Int), Decl::new("i", Ty::Int)], body);
         p.fbs.push(fb.clone());
-        out.push(case("F6", "fb:out-binding-persisting-inputs-loop".into(), p, 3, true));
+        out.push(case("F6i", "fb:omitted-input-keeps-previous-value".into(), p, 3, true));
+    }
+    // declared initial value of an FB input: visible before the first call and used when omitted
+    {
+        let fbi = FbDef {
+            name: "Ini".into(),
+            inputs: vec![Decl::new("d", Ty::Int), Decl::init("gain", int(Ty::Int, 3))],
+            outputs: vec![Decl::new("total", Ty::Int)],
+            vars: vec![Decl::init("bias", int(Ty::Int, 7))],
+            body: vec![assign("total", bin(Op::Add, bin(Op::Mul, var("d"), var("gain")), var("bias")))],
+        };
+        let insti = |n: &str| Decl { name: n.into(), ty: TyX::Fb("Ini".into()), init: None };
+        for called in [false, true] {
+            let mut body = Vec::new();
+            if called {
+                body.push(S::FbCall("fa".into(), vec![Arg::In("d".into(), l(2))]));
+            }
+            body.push(assign("ra", E::Fld("fa".into(), "gain".into())));
+            let mut p = prog(vec![insti("fa"), Decl::new("ra", Ty::Int)], body);
+            p.fbs.push(fbi.clone());
+            out.push(case("F6i", format!("fb:input-initial-value:{}", if called { "called" } else { "never-called" }), p, 2, true));
+        }
     }
     // overflow inside the FB in a later cycle: state at the fault is kept, no frame left
     {
-        let body = vec![S::FbCall("fa".into(), vec![Arg::In("d".into(), l(20000))])];
+        let body = vec![S::FbCall("fa".into(), vec![Arg::In("d".into(), l(20000)), Arg::In("scale".into(), l(1))])];
         let mut p = prog(vec![inst("fa")], body);
         p.fbs.push(fb);
         out.push(case("F6", "fb:overflow-in-second-cycle".into(), p, 3, true));
@@ -951,6 +999,43 @@ pub fn f8() -> Vec<Case> {
     out
 }
 
+/// F9: hand-written programs around features the AST does not model (outcome class only).
+pub fn f9() -> Vec<Case> {
+    let mut out = Vec::new();
+    for (ty, lit) in [("TIME", "T#1s"), ("DATE", "D#2024-01-02"), ("TOD", "TOD#01:02:03"), ("DT", "DT#2024-01-02-03:04:05"), ("LTIME", "LTIME#1s")] {
+        for area in ["I", "Q", "M"] {
+            let sz = if ty == "DATE" || ty == "TIME" || ty == "TOD" { "D" } else { "L" };
+            let text = format!(
+                "PROGRAM Main\nVAR\n    t AT %{area}{sz}0 : {ty};\n    u : {ty} := {lit};\n    k : DINT;\nEND_VAR\n    k := k + 1;\n    {}\nEND_PROGRAM\n",
+                if area == "I" { "u := t;" } else { "t := u;" }
+            );
+            out.push(raw("F9", &format!("at-binding:{ty}:%{area}"), &text, 2));
+        }
+    }
+    // CASE on an enumeration and on bit strings
+    out.push(raw(
+        "F9",
+        "case:selector=ENUM",
+        "TYPE Color : (Red, Green, Blue); END_TYPE\nPROGRAM Main\nVAR c : Color := Green; k : DINT; END_VAR\n    CASE c OF\n        Red: k := 1;\n        Green: k := 2;\n    ELSE\n        k := 3;\n    END_CASE;\nEND_PROGRAM\n",
+        2,
+    ));
+    for t in ["BYTE", "WORD", "DWORD", "LWORD"] {
+        out.push(raw(
+            "F9",
+            &format!("case:selector={t}"),
+            &format!("PROGRAM Main\nVAR c : {t} := 2; k : DINT; END_VAR\n    CASE c OF\n        1: k := 1;\n        2: k := 2;\n    ELSE\n        k := 3;\n    END_CASE;\nEND_PROGRAM\n"),
+            2,
+        ));
+    }
+    // subrange variable written out of range, string into shorter string, enum from integer
+    out.push(raw("F9", "subrange:assign-out-of-range", "PROGRAM Main\nVAR s : INT (0..10) := 5; k : INT := 20; END_VAR\n    s := k;\nEND_PROGRAM\n", 2));
+    out.push(raw("F9", "string:assign-longer", "PROGRAM Main\nVAR s : STRING[3] := 'ab'; t : STRING[10] := 'abcdefgh'; END_VAR\n    s := t;\nEND_PROGRAM\n", 2));
+    out.push(raw("F9", "expr:exponent", "PROGRAM Main\nVAR a : INT := 2; b : INT := 40; r : INT; x : REAL := 2.0; y : REAL; END_VAR\n    y := x ** 3;\n    r := a ** b;\nEND_PROGRAM\n", 2));
+    out.push(raw("F9", "ref:null-deref", "PROGRAM Main\nVAR p : REF_TO INT; k : INT; END_VAR\n    k := p^;\nEND_PROGRAM\n", 2));
+    out.push(raw("F9", "method:call-on-fb", "FUNCTION_BLOCK F\nVAR v : INT; END_VAR\nMETHOD PUBLIC Bump : INT\nVAR_INPUT d : INT; END_VAR\n    v := v + d;\n    Bump := v;\nEND_METHOD\nEND_FUNCTION_BLOCK\nPROGRAM Main\nVAR f : F; r : INT; END_VAR\n    r := f.Bump(d := 32000);\nEND_PROGRAM\n", 3));
+    out
+}
+
 /// The whole corpus except the recursion family, simplest first.
 pub fn corpus(thorough: bool) -> Vec<Case> {
     let mut out = Vec::new();
@@ -962,5 +1047,6 @@ pub fn corpus(thorough: bool) -> Vec<Case> {
     out.extend(f6());
     out.extend(f7());
     out.extend(f8());
+    out.extend(f9());
     out
 }
